@@ -144,7 +144,11 @@ def worker(job):
             api = "cli"
         else:
             graph = "factor_graph" if method == "ilp_fgdp" else None
-            inst = distgen.gen_instance(rng, graph=graph)
+            if method == "adhoc" and rng.random() < 0.5:
+                # adhoc has a dedicated placement for SECP-like models (a factor hosted with one of its variables)
+                inst = distgen.gen_instance(rng, graph="factor_graph", secp_hint_p=0.8)
+            else:
+                inst = distgen.gen_instance(rng, graph=graph)
             P, outcome = api_run(inst, method)
             api = "api"
         ncomp = len(inst["footprints"])
@@ -168,7 +172,7 @@ def main(chk, tier, seed):
     chk.rule = RULE
     chk.assumptions = ["CBC substituted for the missing glpsol binary (solver-unavailable outcomes are environment facts, not verdicts)",
                        "at most one agent with hosting cost 0 per computation when explicit zeros are generated"]
-    n = 700 if tier == "quick" else 14000
+    n = 1050 if tier == "quick" else 14000
     common.run_chunked(chk, "c23", n, nchunks=16 if tier == "quick" else 64, timeout=3000)
     out = chk.extra.get("outcomes", {})
     for m in distgen.METHODS:
